@@ -2,6 +2,7 @@
 
 from typing import Any, Callable, Mapping, Optional, Sequence, Type, cast
 
+from ..exc import CoercionError
 from ..lang import ast as _ast
 from ..schema import Schema
 from ..utilities import coerce_variable_values
@@ -113,17 +114,22 @@ def execute(
         cast(Instrumentation, instrumentation).on_execution_end()
         return GraphQLResult(data=data, errors=executor.errors)
 
+    try:
+        root_fields = executor.collect_fields(
+            root_type, operation.selection_set.selections
+        )
+    except CoercionError as err:
+        # A directive argument of a root selection could not be coerced (e.g.
+        # a null variable value for `if: Boolean!`). Below the root this is
+        # a field error, here there is no field to attach it to: the operation
+        # yields no data and the error is part of the response.
+        instrumentation.on_execution_end()
+        return runtime.ensure_wrapped(GraphQLResult(data=None, errors=[err]))
+
     return runtime.ensure_wrapped(
         runtime.map_value(
             runtime.unwrap_value(
-                exe_fn(
-                    root_type,
-                    initial_value,
-                    [],
-                    executor.collect_fields(
-                        root_type, operation.selection_set.selections
-                    ),
-                )
+                exe_fn(root_type, initial_value, [], root_fields)
             ),
             _on_finish,
         )
